@@ -520,24 +520,25 @@ def sumShaped (h : Heap) (p : PBA) (shape : List Nat) (axis : Option Int) :
 
 /-! ### `resize`, `data_array` (lines 131-153, 189-195) -/
 
-/-- `self.resize(newsize)`.  The object is returned even when an exception is raised:
-    DEFECT: `_stop_index` is advanced before `self._data.resize`, which fails for a view.
-    numpy's `resize` is a no-op when the byte count does not change (then it works on a view
-    too and exposes the parent's bits); otherwise an owning buffer is reallocated (modelled as
-    a move to the end of the heap; older views of it keep the stale bytes — in numpy they
-    dangle). -/
+/-- `self.resize(newsize)` (lines 131-158, as of /repo commit f0f9369).
+    A buffer that does not own its memory (a slice view, a buffer read from a file) is first
+    replaced by a copy (`self._data = self._data.copy()`): the object is DETACHED from its parent
+    and the bits of its last byte beyond `stop` — the parent's bits — become its padding.
+    Then `self._data.resize(nd, refcheck=False)`: a no-op when the byte count is unchanged,
+    otherwise a reallocation (modelled as a move to the end of the heap with zero fill; older
+    views of an owning buffer keep the stale bytes — in numpy they dangle).  Finally
+    `_stop_index` is advanced: the former padding bits become elements (they are zero for
+    arrays made by `size=`, `from_boolean_array`, `copy`; not for views or dirty user buffers). -/
 def resize (h : Heap) (p : PBA) (newsize : Int) : (Heap × PBA) × Option PErr :=
   if newsize < p.size then ((h, p), some .value)
   else if newsize == p.size then ((h, p), none)
   else
     let nd0 := (newsize + p.start) / 8
     let nd := (if (newsize + p.start) % 8 != 0 then nd0 + 1 else nd0).toNat
-    let p' := { p with stop := newsize + p.start }
-    if nd == p.len then ((h, p'), none)
-    else if !p.own then ((h, p'), some .value)
+    if p.own && nd == p.len then ((h, { p with stop := newsize + p.start }), none)
     else
       let bytes := ((p.data h).take nd) ++ List.replicate (nd - p.len) (0 : Byte)
-      ((h ++ bytes.toArray, { p' with off := h.size, len := nd }), none)
+      ((h ++ bytes.toArray, { p with off := h.size, len := nd, stop := newsize + p.start, own := true }), none)
 
 /-- `self.data_array` -/
 def dataArray (h : Heap) (p : PBA) : Except PErr (List Byte) :=
